@@ -21,6 +21,10 @@ def guards_of(b, bb):
         if d_t == d_f:
             continue
         e = b.expr_of_operand(t["discr"], Site(s, None))
+        if fold(e) is not None:
+            continue      # `if cfg!(debug_assertions)`: a constant is no condition on the input
+        if diverges(b, f_t if d_t else t_t):
+            continue      # an assertion (`debug_assert!`, an explicit panic): the runs that return are those that pass it
         out.append((e, d_t, s))
     return out
 
@@ -364,7 +368,7 @@ def _decode_table_raw(F):
     lp = calls(b, A("varint_length"))
     if len(lp) != 1:
         return None, [f"{len(lp)} calls to varint_length_packed"]
-    islen = lambda e: e.strip().k == "call" and e.strip().x.get("site") == lp[0][0]
+    islen = lambda e: strip_casts(e).k == "call" and strip_casts(e).x.get("site") == lp[0][0]      # `len`, `len as usize`
     # window handed to the length scanner
     w = b.arg_exprs(lp[0][0])[0].strip()
     window = None
